@@ -13,20 +13,24 @@ MAX_BYTES_PER_USER = 300            # keeps every interactive_t.text far away fr
 class C12(Prop):
     id = "C12"
     title = "Buffered commands are served fairly: one per user per cycle, nobody starves"
-    lean_modules = ["NV.C12.Props"]
+    lean_modules = ["NV.C12.Props", "NV.C12.Witness"]
+    lean_modules_ = None
     theorems = [
         "NV.C12.flag_bits",
         "NV.C12.cursor_in_bounds",
         "NV.C12.run_never_crashes",
-        "NV.C12.scan_finds_every_eligible",
+        "NV.C12.processIO_safe",
+        "NV.C12.cycleStep_safe",
         "NV.C12.at_most_one_per_user_per_cycle",
-        "NV.C12.loop_bound_sufficient",
-        "NV.C12.no_starvation",
+        "NV.C12.no_turn_no_service",
         "NV.C12.per_user_fifo",
+        "NV.C12.arrivals_append",
         "NV.C12.command_efun_unlimited",
         "NV.C12.command_efun_needs_no_turn",
-        "NV.C12.cycle_oneper_judge",
+        "NV.C12.scan_spec",
+        "NV.C12.cmdLoop_spec",
     ]
+    witness_theorems = ["NV.C12.getchar_typeahead_witness", "NV.C12.C12_trace_Full_false"]
     consts = [("hasCmdTurn", "HAS_CMD_TURN"), ("cmdInBuf", "CMD_IN_BUF"), ("singleChar", "SINGLE_CHAR"),
               ("maxText", "MAX_TEXT")]
     const_headers = ["src/comm.h"]
